@@ -411,6 +411,27 @@ def validate(ctx, exe, cs, ids, tag, workers=None):
     return lines, accepted, rejects, outdir
 
 
+def selftest(ctx, lines):
+    """binding self-test: doctored copies of accepted records must be rejected by TLC with the right clause (else the relation is vacuous)"""
+    base = next((l for l in lines if l['acc1'] and l['acc2'] and l['goals'] and all(g['bad0'] == 0 and g['bad1'] == 0 for g in l['goals'])), None)
+    if base is None:
+        raise vlib.Infra('self-test: no accepted record with goals')
+    a = dict(base, acc2=False)
+    b = dict(base, goals=[dict(base['goals'][0], bad1=1)] + base['goals'][1:])
+    c = dict(base, acc1=False, ran2=False, acc2=False, goals=[])      # an input the minifier rejects: nothing is promised
+    d = dict(base, adj=1, lang='js', **{'in': list(b'x=1 + +a;'), 'out': list(b'x=1++a;')}, v8s0=1, v8s1=0, v8m0=1, v8m1=0,
+             goals=[])                                               # TLA+ lexer alone must see nothing wrong lexically ...
+    e = dict(base, adj=1, lang='js', **{'in': list(b'x=1 in a;'), 'out': list(b'x=1in a;')}, v8s0=1, v8s1=0, v8m0=1, v8m1=0, goals=[])
+    acc, rej = vlib.tlc_trace(ctx, 'C09Trace', 'C09Trace.cfg', [a, b, c, d, e, base])
+    got = collections.defaultdict(set)
+    for pos, w in rej:
+        got[pos].add(w)
+    ok = 'Accepted2' in got[0] and 'Valid1' in got[1] and not got[2] and not got[3] and 'tla.lex.script' in got[4] and not got[5]
+    if not ok:
+        raise vlib.Infra('binding self-test failed: %s' % dict(got))
+    ctx.coverage['binding_selftest'] = 'doctored records rejected: acc2 flipped -> Accepted2; goal count raised -> Valid1; "1in a" -> tla.lex.script'
+
+
 def describe(cs, cid, rec, whys):
     c = cs.cases[cid]
     data = open(c['file'], 'rb').read(401)
@@ -586,6 +607,7 @@ def run(ctx):
     ids = list(range(len(cs.cases)))
     lines, accepted, rejects, outdir = validate(ctx, exe, cs, ids, 'main')
 
+    selftest(ctx, lines)
     # (e) outputs fed back as inputs (every output is itself an accepted input: the property applies to it again)
     re_ids = []
     cand = [i for i in ids if lines[i]['acc1'] and lines[i]['acc2'] and not lines[i]['same12']]
